@@ -275,7 +275,10 @@ class SoCBusHandler(LiteXModule):
         size_pow2 = 2**log2_int(size, False)
         for _, search_region in search_regions.items():
             origin = search_region.origin
-            while (origin + size) < (search_region.origin + search_region.size_pow2):
+            # IO Regions are searched up to their real size (a Region allocated in the padding up to
+            # the next power of 2 would not be in the IO Region), the main Region up to its decoded size.
+            search_size = search_region.size_pow2 if cached else search_region.size
+            while (origin + size) < (search_region.origin + search_size):
                 # Align Origin on Size.
                 if (origin%size_pow2):
                     origin += (size_pow2 - origin%size_pow2)
